@@ -27,6 +27,22 @@ import (
 
 const lim31 = int64(1)<<31 - 2
 
+// limList bounds media times, durations, numbers and presentationTimeOffsets (all relative): sums of three such terms
+// still fit TLC's 32-bit integers. Legitimate values stay below 3.3e8 (3630 s at 90 kHz).
+const limList = int64(700_000_000)
+
+func clampL(v int64, flag *bool) int64 {
+	if v > limList {
+		*flag = true
+		return limList
+	}
+	if v < -limList {
+		*flag = true
+		return -limList
+	}
+	return v
+}
+
 type variant struct {
 	a      *tl.Asset
 	mpd    string
@@ -224,87 +240,136 @@ func Main(args []string) error {
 	}
 
 	// ---- scenarios
+	// A job is a list of scenarios that run one after the other on the (single, long-running) server; jobs run
+	// concurrently. The three MPD types of one (asset, periods value) form one job, in an order that rotates over all
+	// six permutations: the answer to a request must not depend on which other MPD type of the same asset and periods
+	// value was requested before (history quantifier of the property). After all jobs every scenario is visited again in
+	// reverse order with one instant (`keep`): judged again, and its acceptance compared with the first visit (C06.history).
 	var scens []scen
+	var jobs [][]int
 	modes := []string{"number", "time", "tlnr"}
+	perms := [][]int{{0, 1, 2}, {1, 0, 2}, {2, 1, 0}, {1, 2, 0}, {0, 2, 1}, {2, 0, 1}}
+	addJob := func(ss ...scen) {
+		var j []int
+		for _, x := range ss {
+			scens = append(scens, x)
+			j = append(j, len(scens)-1)
+		}
+		jobs = append(jobs, j)
+	}
 	for vi, v := range variants {
-		var acc, rej []int
+		var acc, rej, nondiv []int
 		for _, p := range allP() {
 			if accepts(v, p) {
 				acc = append(acc, p)
+				if 3600%p != 0 {
+					nondiv = append(nondiv, p)
+				}
 			} else {
 				rej = append(rej, p)
 			}
 		}
+		type grp struct {
+			p     int
+			modes []int // indices into modes, in request order
+		}
+		var groups []grp
+		if *thorough {
+			for pi, p := range acc {
+				g := grp{p: p}
+				if pi%4 == 0 {
+					g.modes = perms[(vi+pi)%6]
+				} else {
+					g.modes = []int{pi % 3}
+				}
+				groups = append(groups, g)
+			}
+		} else if len(acc) > 0 {
+			// an extreme, a seeded one, a value that does not divide 3600 (period grid not aligned with the hour), 60 sometimes
+			pick := []int{acc[0]}
+			if vi%2 == 1 {
+				pick[0] = acc[len(acc)-1]
+			}
+			pick = append(pick, acc[rng.Intn(len(acc))])
+			if len(nondiv) > 0 {
+				pick = append(pick, nondiv[rng.Intn(len(nondiv))])
+			}
+			if accepts(v, 60) && vi%3 == 0 {
+				pick = append(pick, 60)
+			}
+			seenP := map[int]bool{}
+			for _, p := range pick {
+				if !seenP[p] {
+					seenP[p] = true
+					groups = append(groups, grp{p: p, modes: perms[(vi+len(groups)+int(*seed))%6]})
+				}
+			}
+		}
+		// an asset whose tracks differ in nominal segment duration is accepted differently by the MPD types: make sure
+		// that one of its groups asks for a SegmentTimeline MPD before the $Number$ MPD
+		if len(groups) > 0 && len(v.segms) > 1 {
+			differ := false
+			for _, ms := range v.segms {
+				if ms != v.segms[0] {
+					differ = true
+				}
+			}
+			if differ && len(groups[0].modes) == 3 {
+				groups[0].modes = perms[[]int{1, 2, 3, 5}[(vi+int(*seed))%4]]
+			}
+		}
+		for gi, g := range groups {
+			tsbds := []int{10, 30}
+			if !*thorough {
+				tsbds = []int{10, 20}
+			}
+			tsbd := tsbds[(gi+vi)%2]
+			if *thorough && gi%7 == 3 {
+				tsbd = 0
+			}
+			if g.p >= 1800 && tsbd > 10 {
+				tsbd = 10 // PD <= 2 s: keep the number of periods per MPD small
+			}
+			snr := -1
+			if (gi+vi)%5 == 2 {
+				snr = 5
+			}
+			var ss []scen
+			for _, mi := range g.modes {
+				ss = append(ss, scen{v: v, mode: modes[mi], P: g.p, cont: (gi+mi+vi)%2 == 1, tsbd: tsbd, snr: snr, seed: rng.Int63()})
+			}
+			addJob(ss...)
+			if *thorough && gi%8 == 0 {
+				addJob(scen{v: v, mode: modes[gi%3], P: g.p, cont: (gi+vi)%2 == 0, tsbd: 20, snr: -1, seed: rng.Int63()})
+			}
+		}
+		// values that must or may be refused
 		for mi, mode := range modes {
-			var ps []int
 			var probes []int
 			if *thorough {
-				ps = acc
 				for j, p := range rej {
 					if j%3 == mi {
 						probes = append(probes, p)
 					}
 				}
 			} else {
-				// always the extremes and 60 if accepted, plus seeded ones
-				pick := map[int]bool{}
-				if len(acc) > 0 {
-					if (vi+mi)%2 == 0 {
-						pick[acc[0]] = true
-					} else {
-						pick[acc[len(acc)-1]] = true
-					}
-					pick[acc[rng.Intn(len(acc))]] = true
-				}
-				if accepts(v, 60) && (vi+mi)%2 == 0 {
-					pick[60] = true
-				}
-				for p := range pick {
-					ps = append(ps, p)
-				}
-				sort.Ints(ps)
 				for j := 0; j < 1+(vi+mi)%2 && len(rej) > 0; j++ {
 					probes = append(probes, rej[rng.Intn(len(rej))])
 				}
 			}
-			for pi, p := range ps {
-				// thorough: every accepted P under one MPD type in rotation, every fifth under all three
-				if *thorough && pi%3 != mi && pi%5 != 0 {
-					continue
-				}
-				tsbds := []int{10, 30}
-				if !*thorough {
-					tsbds = []int{10, 20}
-				}
-				tsbd := tsbds[(pi+mi+vi)%2]
-				if *thorough && pi%7 == 3 {
-					tsbd = 0
-				}
-				if p >= 1800 && tsbd > 10 {
-					tsbd = 10 // PD <= 2 s: keep the number of periods per MPD small
-				}
-				snr := -1
-				if (pi+vi)%5 == 2 {
-					snr = 5
-				}
-				scens = append(scens, scen{v: v, mode: mode, P: p, cont: (pi+mi+vi)%2 == 1, tsbd: tsbd, snr: snr, seed: rng.Int63()})
-				if *thorough && pi%8 == mi {
-					scens = append(scens, scen{v: v, mode: mode, P: p, cont: (pi+mi+vi)%2 == 0, tsbd: 20, snr: -1, seed: rng.Int63()})
-				}
-			}
 			for pi, p := range probes {
-				scens = append(scens, scen{v: v, mode: mode, P: p, cont: pi%2 == 0, tsbd: 10, snr: -1, seed: rng.Int63(), probe: true})
+				addJob(scen{v: v, mode: mode, P: p, cont: pi%2 == 0, tsbd: 10, snr: -1, seed: rng.Int63(), probe: true})
 			}
 			// availabilityStartTime != 0 (start_<s>): not a multiple of most period durations / a whole hour / in 2023
 			asts := []int64{1000, 3600, 1_699_999_000}
-			if len(ps) > 0 && (*thorough || (vi+mi)%3 == 0) {
+			if len(groups) > 0 && (*thorough || (vi+mi)%3 == 0) {
 				na := 1
 				if *thorough {
 					na = 3
 				}
 				for j := 0; j < na; j++ {
-					p := ps[(vi+mi+j)%len(ps)]
-					scens = append(scens, scen{v: v, mode: mode, P: p, cont: j%2 == 0, tsbd: 10, snr: -1, ast: asts[(vi+j)%3], seed: rng.Int63()})
+					p := groups[(vi+mi+j)%len(groups)].p
+					addJob(scen{v: v, mode: mode, P: p, cont: j%2 == 0, tsbd: 10, snr: -1, ast: asts[(vi+j)%3], seed: rng.Int63()})
 				}
 			}
 		}
@@ -316,7 +381,7 @@ func Main(args []string) error {
 	samples := []any{}
 	classes := map[string]int{}
 
-	tl.RunParallel(w, len(scens), 10, func(idx int, emit func(tr.E)) {
+	runScen := func(idx int, emit func(tr.E), repeat bool) {
 		s := scens[idx]
 		a, rt := s.v.a, s.v.a.Video
 		r := rand.New(rand.NewSource(s.seed))
@@ -332,7 +397,7 @@ func Main(args []string) error {
 				uniform = false
 			}
 		}
-		emit(tl.HeaderE(idx, a, rt, cP, tr.E{"P": s.P, "cont": s.cont, "segms": s.v.segms, "mpd": s.v.mpd, "uniform": uniform, "probe": s.probe}))
+		emit(tl.HeaderE(idx, a, rt, cP, tr.E{"P": s.P, "cont": s.cont, "segms": s.v.segms, "mpd": s.v.mpd, "uniform": uniform, "probe": s.probe, "repeat": repeat}))
 		pd := int64(3600 / s.P)
 		pdMS := pd * 1000
 		W := int64(s.tsbd) * 1000
@@ -359,6 +424,16 @@ func Main(args []string) error {
 			for _, t := range []int64{0, 1, seg0 - 1, seg0, W - 1, W, W + 1, pdMS - 1, pdMS, pdMS + 1, pdMS + W, pdMS + W - 1} {
 				add(t, "near-ast")
 			}
+			// deep into the first hours: period numbers up to P-1, P, P+1 (for P that does not divide 3600 the period grid
+			// k*PD leaves the hour grid: P*PD < 3600) and a seeded one in between
+			N := int64(s.P)
+			for _, k := range []int64{N - 1, N, N + 1, 2*N + 3, 4 + r.Int63n(N)} {
+				if k >= 1 {
+					add(k*pdMS+W/2, "deep-hour")
+					add(k*pdMS-1, "deep-hour")
+				}
+			}
+			add(3_600_000+r.Int63n(W+1), "deep-hour")
 			// epochs where period boundary and loop wrap coincide: multiples of lcm; one early, one in 2023..2025
 			far := (1_700_000_000_000 + r.Int63n(50_000_000_000)) / lcm * lcm
 			early := (1 + r.Int63n(40)) * lcm
@@ -389,13 +464,13 @@ func Main(args []string) error {
 				}
 			}
 			{
-				// all coincidence classes once, the rest sampled (quick 1/7, thorough 1/3)
+				// all coincidence classes once, the rest sampled (quick 1/7, thorough 1/4)
 				keep := ins[:0]
 				seen := map[string]bool{}
 				r.Shuffle(len(ins), func(i, j int) { ins[i], ins[j] = ins[j], ins[i] })
 				den := 7
 				if *thorough {
-					den = 3
+					den = 4
 				}
 				for _, x := range ins {
 					if !seen[x.cls] || r.Intn(den) == 0 {
@@ -407,16 +482,20 @@ func Main(args []string) error {
 			}
 		}
 		sort.Slice(ins, func(i, j int) bool { return ins[i].t < ins[j].t })
+		keepIdx := len(ins) * 2 / 3 // the instant that is requested again in the second pass
 		url1 := c1.Prefix(a.Name) + "/" + s.v.mpd
 		urlP := cP.Prefix(a.Name) + "/" + s.v.mpd
 		base1 := c1.Prefix(a.Name) + "/"
 		baseP := cP.Prefix(a.Name) + "/"
-		for _, in := range ins {
+		for ii, in := range ins {
+			if repeat && ii != keepIdx {
+				continue
+			}
 			now := in.t // relative to availabilityStartTime (the MPD timeline)
 			q := fmt.Sprintf("?nowMS=%d", s.ast*1000+now)
 			r1 := env.S.Get(url1 + q)
 			rP := env.S.Get(urlP + q)
-			e := tr.E{"ev": "mpd", "now": fmt.Sprint(s.ast*1000 + now), "cls": in.cls, "st1": r1.Status, "stP": rP.Status, "acc": false, "url": urlP + q}
+			e := tr.E{"ev": "mpd", "now": fmt.Sprint(s.ast*1000 + now), "cls": in.cls, "st1": r1.Status, "stP": rP.Status, "acc": false, "url": urlP + q, "keep": ii == keepIdx}
 			mu.Lock()
 			nMPD++
 			nReq += 2
@@ -529,7 +608,7 @@ func Main(args []string) error {
 				if x.n >= 0 {
 					n = x.n - NB
 				}
-				return []any{clamp(t, flag), clamp(x.d, &clamped), clamp(n, &clamped), st, dig}
+				return []any{clampL(t, flag), clampL(x.d, &clamped), clampL(n, &clamped), st, dig}
 			}
 			var ass []any
 			segsHere := 0
@@ -537,7 +616,7 @@ func Main(args []string) error {
 				if v1.problem != "" {
 					shape = false
 				}
-				ae := map[string]any{"ct": v1.ct, "rep": v1.rep, "ts": v1.ts, "tmpl": v1.tmpl}
+				ae := map[string]any{"ct": v1.ct, "rep": v1.rep, "ts": clamp(v1.ts, &clamped), "tmpl": v1.tmpl}
 				ol := []any{}
 				for _, x := range v1.segs {
 					// presentation time of the single-period segment: t - pto + Period@start*TS, minus B*TS
@@ -566,7 +645,7 @@ func Main(args []string) error {
 						sl = append(sl, tup(x, x.t-B*v.ts, &clamped))
 					}
 					segsHere += len(sl)
-					pl = append(pl, map[string]any{"pto": clamp(v.pto-B*v.ts, &clamped), "ts": v.ts, "pc": v.pc, "segs": sl})
+					pl = append(pl, map[string]any{"pto": clampL(v.pto-B*v.ts, &clamped), "ts": clamp(v.ts, &clamped), "pc": v.pc, "segs": sl})
 				}
 				ae["per"] = pl
 				ass = append(ass, ae)
@@ -585,6 +664,19 @@ func Main(args []string) error {
 			}
 			mu.Unlock()
 		}
+	}
+	// first pass: jobs concurrently, the scenarios of a job in order
+	tl.RunParallel(w, len(jobs), 10, func(j int, emit func(tr.E)) {
+		for _, idx := range jobs[j] {
+			runScen(idx, emit, false)
+		}
+	})
+	// second pass on the same server: every scenario again, reverse order, one instant
+	tl.RunParallel(w, len(jobs), 10, func(j int, emit func(tr.E)) {
+		job := jobs[len(jobs)-1-j]
+		for x := len(job) - 1; x >= 0; x-- {
+			runScen(job[x], emit, true)
+		}
 	})
 	if err := w.Close(); err != nil {
 		return err
@@ -597,7 +689,7 @@ func Main(args []string) error {
 		cl = append(cl, fmt.Sprintf("%s=%d", k, v))
 	}
 	sort.Strings(cl)
-	tr.PrintStats(map[string]any{"scenarios": len(scens), "events": w.N, "distinct": len(distinct), "samples": samples,
+	tr.PrintStats(map[string]any{"scenarios": len(scens), "jobs": len(jobs), "events": w.N, "distinct": len(distinct), "samples": samples,
 		"mpd_pairs": nMPD, "accepted": nAcc, "refused": nRej, "segments_fetched": nSeg, "requests": nReq,
 		"variants": len(variants), "instant_classes": strings.Join(cl, " ")})
 	return nil
